@@ -77,6 +77,28 @@ def gen_program(rng, tier):
     return {"n": n, "prog": prog, "meas": meas, "nm": nm}
 
 
+def gen_post_family(rng):
+    """sampling clause: a postselected measurement that is NOT the last one, whose discarded branch has weight, followed by
+    further measurements whose statistics (and correlations with the first) are requested."""
+    n = rng.choice([2, 3])
+    prog = [("gate", devsim.random_gate(rng, n, M, ["r1"])) for _ in range(2)]
+    prog.append(("gate", {"g": "RY", "w": [1], "p": [rng.choice([3, 5, 11, 13])], "x": [], "m": [], "mods": []}))
+    if rng.random() < 0.5:
+        prog.insert(0, ("measure", rng.randint(1, n), 0, 0))
+    k0 = sum(1 for s_ in prog if s_[0] == "measure")
+    prog.append(("measure", 1, int(rng.random() < 0.3), rng.choice([1, 2])))
+    prog.append(("gate", {"g": "CNOT", "w": [1, 2], "p": [], "x": [], "m": [], "mods": []}))
+    prog.append(("gate", devsim.random_gate(rng, n, M, ["r1", "g1"])))
+    prog.append(("measure", 2, 0, 0))
+    if rng.random() < 0.5:
+        prog.append(("cond", 0, [k0 + 1], devsim.random_gate(rng, n, M, ["g1", "r1"])))
+        prog.append(("measure", rng.randint(1, n), 0, 0))
+    nm = sum(1 for s_ in prog if s_[0] == "measure")
+    later = list(range(k0 + 1, nm))
+    meas = [("mprobs", [k0] + later[:1]), ("mprobs", later[:2] if len(later) >= 2 else later), ("probs", [2, 1])]
+    return {"n": n, "prog": prog, "meas": meas, "nm": nm}
+
+
 def to_tlc(p):
     ops, k = [], 0
     for st in p["prog"]:
@@ -203,7 +225,12 @@ def run(tier, seed):
     # ---- finite shots (statistical clause): probs-type results only, fixed seed, G-test at 1e-9 with one retry
     n_stat, stat_fail = 0, 0
     shots = 4000
-    for pi, (p, r) in enumerate(zip(progs[:45 if tier == "quick" else 400], res)):
+    fam = [gen_post_family(rng) for _ in range(10 if tier == "quick" else 120)]
+    fres, fstats = tapeeval.evaluate("C21", [to_tlc(p) for p in fam], M, name="postfam")
+    stats["distinct"] += fstats["distinct"]
+    stats["generated"] += fstats["generated"]
+    stat_progs = list(zip(progs[:35 if tier == "quick" else 400], res)) + list(zip(fam, fres))
+    for pi, (p, r) in enumerate(stat_progs):
         exp, W = expected(p, r)
         has_post = any(s[0] == "measure" and s[3] for s in p["prog"])
         if W < 0.05:
